@@ -75,9 +75,49 @@ def setdefault_spelled_out(an, f, r):
     return False
 
 
+def check_copy_protocol(ctx):
+    """copy.copy / copy.deepcopy / pickle build the copy from what __reduce_ex__ / __reduce__ / __copy__ / __deepcopy__ say.  The
+    proxies define none of them today (the default reconstructs an object of the proxy class).  A definition on a proxy class or on
+    one of its package bases has to name the proxy class (type(self), self.__class__, the class itself) as what is rebuilt: a
+    reduction to the plain builtin (`(list, (list(self),))`) makes every copy made through the copy module an unvalidated list."""
+    an, model = ctx.an, ctx.model
+    proxies = [c for c in model.classes.values() if c.node is not None and (c.is_subclass_of("list") or c.is_subclass_of("dict") or c.is_subclass_of("set"))
+               and c.name.endswith("Proxy")]
+    ctx.need(len(proxies) >= 2, "typed container classes not found")
+    seen = set()
+    n = 0
+    for pc in proxies:
+        for k in pc.package_mro():
+            for nm in ("__reduce_ex__", "__reduce__", "__copy__", "__deepcopy__"):
+                f = k.methods.get(nm)
+                if f is None or id(f) in seen:
+                    continue
+                seen.add(id(f))
+                n += 1
+                bad = None
+                for r in [x for x in ast.walk(f.node) if isinstance(x, ast.Return) and x.value is not None]:
+                    v = r.value
+                    if isinstance(v, ast.Call) and isinstance(v.func, ast.Attribute) and isinstance(v.func.value, ast.Call) \
+                            and isinstance(v.func.value.func, ast.Name) and v.func.value.func.id == "super":
+                        continue        # the default
+                    head = v.elts[0] if isinstance(v, ast.Tuple) and v.elts else (v.func if isinstance(v, ast.Call) else None)
+                    txt = ast.unparse(head) if head is not None else ""
+                    typed = txt in ("type(self)", "self.__class__", "copyreg.__newobj__") or txt in [p_.name for p_ in proxies] or txt.endswith(".copy")
+                    if not typed:
+                        bad = r
+                ctx.ob("copy-protocol.rebuilds-proxy", f, nm, bad is None,
+                       "the copy protocol rebuilds an object of the proxy class" if bad is None else
+                       "%s reduces a typed container to `%s`: copy.copy / copy.deepcopy / pickle of a typed list or dict give a plain, "
+                       "unvalidated container" % (f.qualname, ast.unparse(bad.value)[:50]), node=bad)
+    if n == 0:
+        ctx.ob("copy-protocol.rebuilds-proxy", proxies[0], "no __reduce__/__copy__ overrides", True,
+               "the proxies keep the default copy protocol (an object of the proxy class is rebuilt)", nontrivial=False)
+
+
 def check(ctx):
     an, model = ctx.an, ctx.model
     state = an.summary(STATE)
+    check_copy_protocol(ctx)
     # C17.1 / C17.5 shared
     sub = type(ctx)(ctx.pid, ctx.an, ctx.tier)
     c01.check_override(sub)
